@@ -169,7 +169,11 @@ class Basic(Handler):
         cancel_frame = specification.Basic.Cancel(consumer_tag=consumer_tag)
         with self._channel.lock:
             result = self._channel.rpc_request(cancel_frame)
-            self._channel.remove_consumer_tag(consumer_tag)
+            # The consumer list holds the tag as the broker confirmed it,
+            # whatever type the caller passed it in.
+            self._channel.remove_consumer_tag(
+                result.get('consumer_tag') or consumer_tag
+            )
         return result
 
     def publish(self, body, routing_key, exchange='', properties=None,
